@@ -633,6 +633,12 @@ func main() {
 	for i := 0; i < o.N/6; i++ {
 		recipes = append(recipes, genVCfgRecipe(vrng))
 	}
+	// round 7: mixed-order Real containers; view receivers of the document's own shape (own stream, own generator state)
+	recipes = append(recipes, r7Sweep()...)
+	r7rng := NewRng(o.Seed ^ 0x7a11)
+	for i := 0; i < o.N/8; i++ {
+		recipes = append(recipes, genR7Recipe(r7rng))
+	}
 	var orc []OracleRec
 	for i, rc := range recipes {
 		if os.Getenv("C18_TRACE") != "" {
@@ -741,8 +747,10 @@ func hunt(o Opts) {
 			recipes = append(recipes, genTableRecipe(rng))
 		case 2:
 			recipes = append(recipes, genCfgRecipe(rng))
-		case 4, 5:
+		case 4:
 			recipes = append(recipes, genRecvRecipe(rng))
+		case 5:
+			recipes = append(recipes, genR7Recipe(rng))
 		default:
 			recipes = append(recipes, genRecipe(rng))
 		}
